@@ -63,20 +63,32 @@ func ruleCacheKey(rule string) func(r *Run) {
 			ok := wholeKey(g.Common().Args[1])
 			r.Check(rule, fmt.Sprintf("(*Router).match:Get key#%d", i+1), w.InstrPos(g), ok, map[bool]string{true: "lookup key = method + whole normalised path (injective in both)", false: "the cache is consulted under a key that is not method + whole path"}[ok])
 		}
-		// the wrapper forwards its key parameter unchanged
+		// the wrapper stores under a key computed from its own parameters only
 		cd := tm.cacheDyn
-		for i, s := range callsToFn(cd, cm.set) {
-			ok := s.Common().Args[1] == ssa.Value(cd.Params[1])
-			r.Check(rule, fmt.Sprintf("(*Router).cacheDynamicRoute:Set key#%d", i+1), w.InstrPos(s), ok, "the wrapper stores under the key it was given")
+		sets := callsToFn(cd, cm.set)
+		for i, s := range sets {
+			ok := flowsOnlyFromParams(s.Common().Args[1], cd)
+			r.Check(rule, fmt.Sprintf("(*Router).cacheDynamicRoute:Set key#%d", i+1), w.InstrPos(s), ok, "the wrapper stores under a key that is a function of the key material it was given")
 		}
-		// every store site uses the lookup key
+		// every store site uses the lookup key: the key the wrapper computes, with this call's arguments substituted
+		lookup := ""
+		if len(gets) == 1 {
+			lookup = canon(gets[0].Common().Args[1])
+		}
 		n := 0
 		for _, f := range w.Funcs {
 			for _, c := range callsToFn(f, cd) {
 				n++
-				okK := f == mf && wholeKey(c.Common().Args[1])
+				okK := f == mf && len(sets) > 0 && lookup != ""
+				eff := ""
+				for _, s := range sets {
+					eff = canonSubst(s.Common().Args[1], cd.Params, c.Common().Args)
+					if eff != lookup {
+						okK = false
+					}
+				}
 				r.Check(rule, fmt.Sprintf("%s:store key#%d", FuncName(f), n), w.InstrPos(c), okK,
-					map[bool]string{true: "entries are stored under the key lookup uses (method + whole path)", false: "a dynamic match is cached under a key that lookup never asks for (" + shortCanon(canon(c.Common().Args[1])) + "): the repeat of the request is a miss again, and different paths overwrite one entry"}[okK])
+					map[bool]string{true: "entries are stored under the key lookup uses (method + whole path)", false: "a dynamic match is cached under a key that lookup never asks for (" + shortCanon(eff) + "): the repeat of the request is a miss again, and different paths overwrite one entry"}[okK])
 			}
 			if f != cd {
 				for _, c := range callsToFn(f, cm.set) {
@@ -520,7 +532,7 @@ func ruleC14Total(r *Run) {
 func init() {
 	register(&property{
 		Meta: propertyMeta{
-			ID: "C07",
+			ID:          "C07",
 			Explanation: "The cache can only return what the uncached path would have returned for the same (method, path): (C07-KEY) store and lookup keys are both method + whole normalised path (canonical form through the wrapper cacheDynamicRoute; two store sites, one per dynamic tier). (C07-VALUE = C02-CACHE) the pair stored is the pair the miss path returns; a hit returns (v, v.params). (C07-COPY) copyWithParams starts from a whole-struct copy and overwrites only regex, matches, params. (C07-ORDER = C01-TIERS) the cache sits after the static table and before dynamic matching and is filled only on dynamic success paths. (C07-NODE) index and list of the cache agree on keys: pushed node carries (k, v), hashMap[k] is that element, every Remove is paired with delete of that element's key, Get returns the value indexed under k. (C07-GUARD) every use of r.cachedRoutes in the request core is dominated by a nil test.",
 			NotDecided:  []string{"step-by-step equality of twin routers for every request history (history-valued)", "eviction policy (C14)", "handlers mutating Params (excluded by the property's premise)"},
 			Assumptions: []string{"handlers treat Params as read-only; registration is finished before the first request"},
@@ -529,11 +541,28 @@ func init() {
 	})
 	register(&property{
 		Meta: propertyMeta{
-			ID: "C14",
+			ID:          "C14",
 			Explanation: "Structural invariants that make the two-structure implementation a bounded LRU: (C14-PAIR) index and list change together (insert: PushFront(&node{k,v}) with hashMap[k] = that element; remove: list.Remove(e) with delete(hashMap, key of e); Get returns the indexed node's value). (C14-ORIENT) one orientation is used consistently: inserts, re-stores and hits touch the front family, the eviction victim is the back; re-storing a key touches and replaces without inserting; Delete touches nothing else. (C14-BOUND) only Set inserts, every insertion reaches the guard Len() > size, which removes exactly one element, the LRU end (by induction Len <= max(size,0) after every Set). (C14-KEY) the router stores each dynamic match under the key lookup uses, and (C01-TIERS) consults the cache before dynamic matching, so an immediate repeat is answered from the cache. (C14-LOCK) recency mutations happen under the exclusive lock.",
 			NotDecided:  []string{"LRU conformance as a property of arbitrary operation histories (needs the run-time order); Len() values"},
 			Assumptions: []string{"container/list semantics"},
 		},
 		Rules: []ruleFn{{"C14-PAIR", ruleCacheStruct("C14")}, {"C14-KEY", ruleCacheKey("C14-KEY")}, {"C14-LOCK", ruleCacheLock("C14-LOCK")}, {"C14-TOTAL", ruleC14Total}, {"C01-TIERS", ruleC01Tiers}},
 	})
+}
+
+// flowsOnlyFromParams: v is computed from the function's parameters and constants by pure operators.
+func flowsOnlyFromParams(v ssa.Value, f *ssa.Function) bool {
+	switch x := v.(type) {
+	case *ssa.Parameter:
+		return x.Parent() == f
+	case *ssa.Const:
+		return true
+	case *ssa.BinOp:
+		return flowsOnlyFromParams(x.X, f) && flowsOnlyFromParams(x.Y, f)
+	case *ssa.ChangeType:
+		return flowsOnlyFromParams(x.X, f)
+	case *ssa.Convert:
+		return flowsOnlyFromParams(x.X, f)
+	}
+	return false
 }
